@@ -490,7 +490,13 @@ impl G {
                 } else {
                     *src.pick(&[0usize, 2, 2, 4, 6])
                 };
-                let mut a = gen_amount(src, if *kind == AmtKind::Rate36 { 7 + dec.min(4) } else { *max_len }, dec);
+                let mut a = if *kind == AmtKind::Rate36 {
+                    // 0.0001 ..= 100000, at most 12 characters
+                    let int_digits = src.range(1, 5);
+                    gen_amount(src, int_digits + 1 + dec.min(4), dec.min(4))
+                } else {
+                    gen_amount(src, *max_len, dec)
+                };
                 if *kind != AmtKind::Any && a.chars().all(|c| c == '0' || c == ',') {
                     a = format!("1{}", &a[1..]);
                 }
